@@ -596,9 +596,38 @@ func BatchMain(self, verifDir string, p *Prop, tier string) int {
 			}
 			final, _ := Execute(p.ID, tier, r.Idx, NewReplay(choices), env, nil, p.Fn, 2000)
 			if final.Viol == nil || final.Viol.Sig != sig {
-				// not reproducible in this process: harness trouble, never a violation
+				// Not reproducible inside this (long-lived) process. If it reproduces from
+				// its seed in a fresh process, state that outlives a run is involved
+				// (package-level variables of the system under test): report it, unminimised.
+				child := exec.Command(self, "one", p.ID, tier, strconv.FormatUint(seed, 10), strconv.Itoa(r.Idx))
+				child.Env = childEnv()
+				outb, _ := child.CombinedOutput()
+				if strings.Contains(string(outb), "VIOLSIG "+sig+"\n") {
+					rf := &ReplayFile{Property: p.ID, Engine: p.Engine, Tier: tier, Seed: seed, Run: r.Idx, FromSeed: true, Signature: sig,
+						Violation: r.Viol, Env: EnvInfo(), Decoded: r.Decoded, Sample: r.Sample}
+					dir := filepath.Join(verifDir, "replays", p.ID)
+					os.MkdirAll(dir, 0o755)
+					name := sanitizeRe.ReplaceAllString(strings.TrimPrefix(sig, p.ID+":"), "_")
+					path := filepath.Join(dir, name+".json")
+					b, _ := json.MarshalIndent(rf, "", " ")
+					os.WriteFile(path, b, 0o644)
+					isKnown := false
+					for _, f := range known.Findings {
+						if f.Property == p.ID && f.Signature == sig {
+							isKnown = true
+							fmt.Printf("KNOWN-FINDING: property=%s %s (signature %s)\n", p.ID, f.What, sig)
+							knownSeen = append(knownSeen, sig)
+						}
+					}
+					if !isKnown {
+						fmt.Printf("VIOLATION property=%s replay=%s\n  signature: %s\n  %s: %s\n  reproduces from its seed in a fresh process (run %d), not when re-executed inside the batch process: process-wide state is involved; not minimised\n", p.ID, path, sig, r.Viol.Kind, r.Viol.Msg, r.Idx)
+						exit = 1
+						nviol++
+					}
+					continue
+				}
 				closer()
-				fmt.Fprintf(os.Stderr, "HARNESS-TROUBLE property=%s violation %q of run %d did not reproduce on re-execution\n", p.ID, sig, r.Idx)
+				fmt.Fprintf(os.Stderr, "HARNESS-TROUBLE property=%s violation %q of run %d did not reproduce on re-execution (neither in the batch process nor from its seed in a fresh process)\n", p.ID, sig, r.Idx)
 				return 2
 			}
 			ksig := sig
@@ -756,7 +785,9 @@ func ReplayMain(path string) int {
 		cmd := exec.Command(self, "one", p.ID, rf.Tier, strconv.FormatUint(rf.Seed, 10), strconv.Itoa(rf.Run))
 		cmd.Env = childEnv()
 		tb := &tailBuf{}
+		ob := &tailBuf{}
 		cmd.Stderr = tb
+		cmd.Stdout = ob
 		done := make(chan error, 1)
 		cmd.Start()
 		go func() { done <- cmd.Wait() }()
@@ -768,7 +799,12 @@ func ReplayMain(path string) int {
 			err = fmt.Errorf("hung")
 		}
 		if err == nil {
-			fmt.Printf("replay of %s: the run completes (property held on this tree)\n", path)
+			if strings.Contains(string(ob.buf), "VIOLSIG ") {
+				fmt.Println(lastLines(string(ob.buf), 12))
+				fmt.Printf("VIOLATION property=%s replay=%s\n  signature: %s\n  reproduced from its seed in a fresh process\n", p.ID, path, rf.Signature)
+				return 1
+			}
+			fmt.Printf("replay of %s: the run completes without violation (property held on this tree)\n", path)
 			return 0
 		}
 		fmt.Println(lastLines(string(tb.buf), 25))
